@@ -238,6 +238,25 @@ def d2(ctx, F):
             ctx.check(okr, "C05.D2.prefix-position", "decode:prefix-range", "the prefix is taken from the first 8 bytes (src[..LEN_MARKER_SIZE])", rd[0].span)
 
 
+def d1_serde_plain(ctx, F):
+    """frames carrying any topic name round-trip: (de)serialising a TopicName is field-by-field, with no validation or normalisation hooked
+    into serde (`#[serde(try_from = ..)]`, custom Deserialize) — the server must be able to decode a registration for an invalid name in
+    order to refuse it, and reserved names are used deliberately by feature-gated code"""
+    TN = "selium_protocol::topic_name::TopicName"
+    for tr in ("serde::ser::Serialize", "serde::de::Deserialize"):
+        ims = [i for i in F.impls_of(self_adt=TN) if i.get("trait") == tr]
+        if not ctx.check(len(ims) == 1 and ims[0]["derived"], "C05.D1.serde-plain", "topicname-serde-handwritten:%s" % tr.rsplit("::", 1)[-1],
+                         "TopicName's %s impl is the derived one" % tr):
+            continue
+        bodies = [F.bodies[p_] for p_ in ims[0]["items"].values() if p_ in F.bodies]
+        reg = F.region(bodies)
+        hooks = sorted({c.name() for b in reg.values() for c in b.calls()
+                        if strip_generics(c.callee).startswith(TN + "::") or ("TryFrom" in c.callee and "TopicName" in (c.full or "")) or strip_generics(c.callee).endswith("::is_valid")})
+        ctx.touch(*bodies)
+        ctx.check(not hooks, "C05.D1.serde-plain", "topicname-serde-hook:%s" % tr.rsplit("::", 1)[-1],
+                  "TopicName's derived %s does not route through a validating conversion (%s)" % (tr.rsplit("::", 1)[-1], hooks or "none"))
+
+
 def d3(ctx, F):
     """the 1 MiB limit, both directions. Evaluated on encode / decode with their private helpers inlined, so it does not matter whether the
     test lives in a helper (whatever its name) or in the codec methods themselves."""
@@ -559,6 +578,7 @@ def d5_guard_exactness(ctx, F):
 
 def run(ctx):
     F = ctx.facts("quick")
+    d1_serde_plain(ctx, F)
     d5_guard_exactness(ctx, F)
     d1(ctx, F)
     d2(ctx, F)
